@@ -22,6 +22,9 @@ SchedProgress.vos SchedProgress.vok SchedProgress.required_vos: SchedProgress.v 
 SchedPrio.vo SchedPrio.glob SchedPrio.v.beautified SchedPrio.required_vo: SchedPrio.v Graph.vo GraphFacts.vo Sched.vo SchedInv.vo
 SchedPrio.vio: SchedPrio.v Graph.vio GraphFacts.vio Sched.vio SchedInv.vio
 SchedPrio.vos SchedPrio.vok SchedPrio.required_vos: SchedPrio.v Graph.vos GraphFacts.vos Sched.vos SchedInv.vos
+SchedAsync.vo SchedAsync.glob SchedAsync.v.beautified SchedAsync.required_vo: SchedAsync.v Graph.vo GraphFacts.vo Sched.vo SchedInv.vo SchedPrio.vo
+SchedAsync.vio: SchedAsync.v Graph.vio GraphFacts.vio Sched.vio SchedInv.vio SchedPrio.vio
+SchedAsync.vos SchedAsync.vok SchedAsync.required_vos: SchedAsync.v Graph.vos GraphFacts.vos Sched.vos SchedInv.vos SchedPrio.vos
 Priority.vo Priority.glob Priority.v.beautified Priority.required_vo: Priority.v Graph.vo
 Priority.vio: Priority.v Graph.vio
 Priority.vos Priority.vok Priority.required_vos: Priority.v Graph.vos
@@ -49,6 +52,9 @@ DataflowFacts.vos DataflowFacts.vok DataflowFacts.required_vos: DataflowFacts.v 
 DataflowFast.vo DataflowFast.glob DataflowFast.v.beautified DataflowFast.required_vo: DataflowFast.v Graph.vo Sched.vo Dataflow.vo
 DataflowFast.vio: DataflowFast.v Graph.vio Sched.vio Dataflow.vio
 DataflowFast.vos DataflowFast.vok DataflowFast.required_vos: DataflowFast.v Graph.vos Sched.vos Dataflow.vos
+SameNodes.vo SameNodes.glob SameNodes.v.beautified SameNodes.required_vo: SameNodes.v Graph.vo GraphFacts.vo Sched.vo SchedInv.vo SchedGhost.vo Dataflow.vo DataflowFacts.vo
+SameNodes.vio: SameNodes.v Graph.vio GraphFacts.vio Sched.vio SchedInv.vio SchedGhost.vio Dataflow.vio DataflowFacts.vio
+SameNodes.vos SameNodes.vok SameNodes.required_vos: SameNodes.v Graph.vos GraphFacts.vos Sched.vos SchedInv.vos SchedGhost.vos Dataflow.vos DataflowFacts.vos
 SelectSpec.vo SelectSpec.glob SelectSpec.v.beautified SelectSpec.required_vo: SelectSpec.v Graph.vo GraphFacts.vo Closure.vo Select.vo SelectFacts.vo Sched.vo SchedInv.vo Dataflow.vo DataflowFacts.vo
 SelectSpec.vio: SelectSpec.v Graph.vio GraphFacts.vio Closure.vio Select.vio SelectFacts.vio Sched.vio SchedInv.vio Dataflow.vio DataflowFacts.vio
 SelectSpec.vos SelectSpec.vok SelectSpec.required_vos: SelectSpec.v Graph.vos GraphFacts.vos Closure.vos Select.vos SelectFacts.vos Sched.vos SchedInv.vos Dataflow.vos DataflowFacts.vos
@@ -70,6 +76,12 @@ Compose.vos Compose.vok Compose.required_vos: Compose.v Graph.vos
 ComposeFacts.vo ComposeFacts.glob ComposeFacts.v.beautified ComposeFacts.required_vo: ComposeFacts.v Graph.vo GraphFacts.vo Closure.vo Compose.vo
 ComposeFacts.vio: ComposeFacts.v Graph.vio GraphFacts.vio Closure.vio Compose.vio
 ComposeFacts.vos ComposeFacts.vok ComposeFacts.required_vos: ComposeFacts.v Graph.vos GraphFacts.vos Closure.vos Compose.vos
+Threads.vo Threads.glob Threads.v.beautified Threads.required_vo: Threads.v 
+Threads.vio: Threads.v 
+Threads.vos Threads.vok Threads.required_vos: Threads.v 
+ThreadsFacts.vo ThreadsFacts.glob ThreadsFacts.v.beautified ThreadsFacts.required_vo: ThreadsFacts.v Threads.vo
+ThreadsFacts.vio: ThreadsFacts.v Threads.vio
+ThreadsFacts.vos ThreadsFacts.vok ThreadsFacts.required_vos: ThreadsFacts.v Threads.vos
 History.vo History.glob History.v.beautified History.required_vo: History.v Graph.vo Select.vo
 History.vio: History.v Graph.vio Select.vio
 History.vos History.vok History.required_vos: History.v Graph.vos Select.vos
@@ -124,6 +136,12 @@ Properties/C14.vos Properties/C14.vok Properties/C14.required_vos: Properties/C1
 Properties/C15.vo Properties/C15.glob Properties/C15.v.beautified Properties/C15.required_vo: Properties/C15.v Graph.vo Sched.vo SchedInv.vo Dataflow.vo DataflowFacts.vo DenPre.vo
 Properties/C15.vio: Properties/C15.v Graph.vio Sched.vio SchedInv.vio Dataflow.vio DataflowFacts.vio DenPre.vio
 Properties/C15.vos Properties/C15.vok Properties/C15.required_vos: Properties/C15.v Graph.vos Sched.vos SchedInv.vos Dataflow.vos DataflowFacts.vos DenPre.vos
+Properties/C16.vo Properties/C16.glob Properties/C16.v.beautified Properties/C16.required_vo: Properties/C16.v Threads.vo ThreadsFacts.vo
+Properties/C16.vio: Properties/C16.v Threads.vio ThreadsFacts.vio
+Properties/C16.vos Properties/C16.vok Properties/C16.required_vos: Properties/C16.v Threads.vos ThreadsFacts.vos
+Properties/C17.vo Properties/C17.glob Properties/C17.v.beautified Properties/C17.required_vo: Properties/C17.v Graph.vo Sched.vo SchedInv.vo SchedGhost.vo Dataflow.vo DataflowFacts.vo SameNodes.vo SchedAsync.vo
+Properties/C17.vio: Properties/C17.v Graph.vio Sched.vio SchedInv.vio SchedGhost.vio Dataflow.vio DataflowFacts.vio SameNodes.vio SchedAsync.vio
+Properties/C17.vos Properties/C17.vok Properties/C17.required_vos: Properties/C17.v Graph.vos Sched.vos SchedInv.vos SchedGhost.vos Dataflow.vos DataflowFacts.vos SameNodes.vos SchedAsync.vos
 Properties/C18.vo Properties/C18.glob Properties/C18.v.beautified Properties/C18.required_vo: Properties/C18.v Graph.vo Select.vo SelectFacts.vo History.vo HistoryFacts.vo
 Properties/C18.vio: Properties/C18.v Graph.vio Select.vio SelectFacts.vio History.vio HistoryFacts.vio
 Properties/C18.vos Properties/C18.vok Properties/C18.required_vos: Properties/C18.v Graph.vos Select.vos SelectFacts.vos History.vos HistoryFacts.vos
